@@ -265,6 +265,20 @@ Definition chk (v : value) (leaves : list (list string * value)) : bool :=
                 if not same:
                     ctx.violation(f"samples-name-with-{tag}", f"Samples with parameters {pn} was saved without complaint but does not reload: "
                                   f"{t0!r:.160}", case)
+        # a parameter called like one of the set's own fields, flat layout (finding F62)
+        try:
+            from aspire.samples import SMCSamples as _SMC
+            s0 = _SMC(np.arange(8.0).reshape(4, 2) + 0.5, parameters=["alpha", "beta"], log_likelihood=[0.5, 1.0, 2.0, -1.0], log_prior=[0.0] * 4, log_q=[1.0] * 4, beta=0.5)
+            path = os.path.join(root, "clash.h5")
+            ctx.count("samples/name-like-a-field", True, kind="samples/name-like-a-field")
+            with h5py.File(path, "w") as f:
+                s0.save(f, flat=True)
+            with h5py.File(path, "r") as f:
+                t0 = _SMC.load(f)
+            if t0.beta is None or float(t0.beta) != 0.5 or not np.array_equal(np.asarray(t0.x), np.asarray(s0.x)):
+                ctx.violation("samples-name-like-a-field", f"SMCSamples(parameters=['alpha','beta'], beta=0.5) saved flat reloads with beta={t0.beta!r}", {"parameters": ["alpha", "beta"], "flat": True})
+        except Exception as e:
+            ctx.violation("samples-name-like-a-field", f"SMCSamples with a parameter called 'beta' (flat layout): {e!r:.160}", {"parameters": ["alpha", "beta"], "flat": True})
         # parameter names handed over as a NumPy array or a tuple (what slicing a table of names gives) instead of a list
         for pn_given, tag in ((np.array(["zeta", "alpha"]), "array"), (("zeta", "alpha"), "tuple")):
             case = {"cls": "Samples", "parameters": f"{tag} of names"}
